@@ -27,7 +27,7 @@ CONSTANTS
   MaxOps,          \* API calls per handle
   MaxIds,          \* bound on table / temp ids
   InitN,           \* tables in the initial stack
-  OpKinds,         \* subset of {"add","addition","empty","compactall","compactrange","reload","reopen","clean"}
+  OpKinds,         \* subset of {"add","addition","abort","empty","compactall","compactrange","reload","reopen","clean"}
   ReaderHandles,   \* handles restricted to ReaderOps (e.g. a reading/reloading handle racing writers)
   ReaderOps,
   ReaderMaxOps,    \* API calls of a reader handle
@@ -140,6 +140,7 @@ StartOther(h, op, firstpc, l) ==
 Calls(h) ==
   \/ StartAdd(h, 1, "add")
   \/ StartAdd(h, 2, "addition")
+  \/ StartAdd(h, 2, "abort")       \* NewAddition, two tr.Add, then tr.Close() without Commit: an abandoned transaction
   \/ StartAdd(h, 1, "empty")
   \/ StartCompactAll(h)
   \* every range f < l <= 7, spelled out so that TLC labels each transition with its range (used by the transition cover)
@@ -239,7 +240,7 @@ A_Lock(h) ==
      THEN /\ FsCreate(h, LOCK, KFile)
           /\ Go(h, "a_uptodate", [loc[h] EXCEPT !.fd = Len(ino) + 1, !.holdLock = TRUE])
      ELSE /\ FsNop      \* ErrLockFailure; Stack.Add reloads, a bare NewAddition does not
-          /\ IF loc[h].op = "addition" THEN Go(h, "ret", [loc[h] EXCEPT !.res = "lock"])
+          /\ IF loc[h].op \in {"addition", "abort"} THEN Go(h, "ret", [loc[h] EXCEPT !.res = "lock"])
              ELSE Go(h, "r_read", ToReload([loc[h] EXCEPT !.res = "lock"], "ret", TRUE))
   /\ ApiUnch /\ KeepCtr /\ KeepMem
   /\ Act(h, "A_Lock", "createexcl", PKLock, CreateExclRes(LOCK))
@@ -256,7 +257,7 @@ A_UpToDate(h) ==
 A_UnlockStale(h) ==     \* tr.Close(): os.Remove(lock); then ErrLockFailure, Add reloads
   /\ pc[h] = "a_unlock_stale"
   /\ IF Exists(LOCK) THEN FsRemove(h, LOCK, PKLock) ELSE FsNop
-  /\ IF loc[h].op = "addition" THEN Go(h, "ret", [loc[h] EXCEPT !.res = "lock", !.holdLock = FALSE])
+  /\ IF loc[h].op \in {"addition", "abort"} THEN Go(h, "ret", [loc[h] EXCEPT !.res = "lock", !.holdLock = FALSE])
      ELSE Go(h, "r_read", ToReload([loc[h] EXCEPT !.res = "lock", !.holdLock = FALSE], "ret", TRUE))
   /\ ApiUnch /\ KeepCtr /\ KeepMem
   /\ Act(h, "A_UnlockStale", "remove", PKLock, ExistRes(LOCK))
@@ -304,6 +305,7 @@ A_RmTmp(h) ==           \* deferred os.Remove(tab.Name()): ENOENT after the rena
      /\ IF Exists(l.tmp) THEN FsRemove(h, l.tmp, PKTmp) ELSE FsNop
      /\ IF l.op = "empty" THEN Go(h, "a_close_unlock", [l EXCEPT !.tmp = ""])
         ELSE IF l.i + 1 < l.parts THEN Go(h, "a_temp", [l EXCEPT !.tmp = "", !.i = @ + 1])
+        ELSE IF l.op = "abort" THEN Go(h, "a_close_rm", [l EXCEPT !.tmp = "", !.res = "rejected"])    \* the caller gives up: tr.Close()
         ELSE Go(h, "a_write", [l EXCEPT !.tmp = ""])
      /\ Act(h, "A_RmTmp", "remove", PKTmp, ExistRes(l.tmp))
   /\ ApiUnch /\ KeepCtr /\ KeepMem
